@@ -1523,6 +1523,7 @@ func (m *metadataAPI) removeStream(stream *stream, epoch uint64) {
 		}
 	}
 	m.startGoroutine(func() {
+		verifGate("metadata.stream_deleted")
 		m.consumerGroupsMu.RLock()
 		for _, group := range m.consumerGroups {
 			group.StreamDeleted(stream.GetName(), epoch)
